@@ -950,8 +950,10 @@ class Fxp():
 
         else:
             # extract real and imaginary parts (in double precision, whatever the precision of the complex carrier)
-            new_val_real = np.vectorize(lambda v: v.real)(val)
-            new_val_imag = np.vectorize(lambda v: v.imag)(val)
+            # (an object array may mix integers, floats and complex numbers: the parts are floats, not of the type of the first element)
+            _otypes = [float] if val.dtype == object else None
+            new_val_real = np.vectorize(lambda v: v.real, otypes=_otypes)(val)
+            new_val_imag = np.vectorize(lambda v: v.imag, otypes=_otypes)(val)
             if new_val_real.dtype != object and np.issubdtype(new_val_real.dtype, np.floating) and new_val_real.dtype.itemsize < 8:
                 new_val_real = new_val_real.astype(float)
                 new_val_imag = new_val_imag.astype(float)
